@@ -1,1 +1,367 @@
+//! Agent universe, action alphabet and the driver that executes actions on the real `StunAgent`.
+
+pub mod model;
+pub mod schedule;
 pub mod spec;
+
+use crate::refimpl::wire;
+use serde::{Deserialize, Serialize};
+use std::net::SocketAddr;
+use std::time::{Duration, Instant};
+use stun_proto::agent::*;
+use stun_types::attribute::*;
+use stun_types::message::*;
+use stun_types::TransportType;
+
+pub const N_IDS: usize = 4; // A, B, C sent; U never sent
+pub const N_ADDRS: usize = 5; // P1, P2, P3, P1' (other port), P1'' (other ip)
+
+pub fn local_addr() -> SocketAddr {
+    "10.0.0.1:1000".parse().unwrap()
+}
+
+pub fn peer(i: u8) -> SocketAddr {
+    match i {
+        0 => "10.0.0.2:2000".parse().unwrap(),
+        1 => "10.0.0.3:3000".parse().unwrap(),
+        2 => "10.0.0.4:4000".parse().unwrap(),
+        3 => "10.0.0.2:2001".parse().unwrap(),
+        _ => "10.0.0.9:2000".parse().unwrap(),
+    }
+}
+
+/// don't-care constants: transaction ids of the universe (seeded)
+pub fn tid(i: u8) -> u128 {
+    let seed = crate::agent::model::seed();
+    let mix = |k: u64| -> u128 {
+        let mut x = seed.wrapping_mul(0x9E37_79B9_7F4A_7C15).wrapping_add(k.wrapping_mul(0xD6E8_FEB8_6659_FD93));
+        x ^= x >> 29;
+        x = x.wrapping_mul(0xBF58_476D_1CE4_E5B9);
+        x ^= x >> 32;
+        x as u128
+    };
+    ((mix(i as u64 + 1) << 40) | (mix(i as u64 + 77) & 0xFF_FFFF_FF00) | (i as u128 + 1)) & ((1u128 << 96) - 1)
+}
+
+pub fn key_text(k: u8) -> &'static str {
+    match k {
+        0 => "local-pw",
+        1 => "remote-one",
+        _ => "remote-two",
+    }
+}
+
+pub fn creds(k: u8) -> MessageIntegrityCredentials {
+    ShortTermCredentials::new(key_text(k).to_string()).into()
+}
+
+#[derive(Clone, Copy, Debug, Serialize, Deserialize, PartialEq, Eq, Hash, PartialOrd, Ord)]
+pub enum Seal {
+    None,
+    Sha1,
+    Sha256,
+    Both,
+}
+
+#[derive(Clone, Copy, Debug, Serialize, Deserialize, PartialEq, Eq, Hash, PartialOrd, Ord)]
+pub enum When {
+    Now,
+    WakeMinus1,
+    Wake,
+    WakePlus1,
+    WakePlus700,
+    Far,
+}
+
+#[derive(Clone, Copy, Debug, Serialize, Deserialize, PartialEq, Eq, Hash, PartialOrd, Ord)]
+pub enum Auth {
+    None,
+    Sha1(u8),
+    Sha256(u8),
+    Both(u8),
+    /// SHA-1 under the key, one bit of the HMAC flipped
+    Sha1Flipped(u8),
+}
+
+#[derive(Clone, Copy, Debug, Serialize, Deserialize, PartialEq, Eq, Hash, PartialOrd, Ord)]
+pub enum Act {
+    /// request: id index, destination index, sealing, payload shape (0 empty body, 1 SOFTWARE .. FINGERPRINT)
+    Send { id: u8, dest: u8, seal: Seal, shape: u8 },
+    /// kind 1 indication, 2 success response, 3 error response
+    SendOther { kind: u8, dest: u8 },
+    Poll { when: When, order: u8 },
+    Tick { ms: u32 },
+    /// class 2 success / 3 error
+    Resp { id: u8, class: u8, auth: Auth, from: u8 },
+    /// class 0 request / 1 indication
+    Incoming { class: u8, id: u8, from: u8 },
+    Cancel { id: u8 },
+    CancelRtx { id: u8 },
+    Configure { id: u8, cfg: u8 },
+    SetRemote { key: u8 },
+}
+
+/// (initial rto ms, retransmits, last retransmit timeout ms): 5 named configurations used by the
+/// state-space slices, followed by the grid of the schedule sweep (6 x 9 x 4).
+pub const N_NAMED_CFGS: usize = 5;
+pub const GRID_RTO: [u64; 6] = [1, 2, 499, 500, 1000, 60_000];
+pub const GRID_LAST: [u64; 4] = [0, 1, 8000, 60_000];
+pub fn n_cfgs() -> usize {
+    N_NAMED_CFGS + GRID_RTO.len() * 9 * GRID_LAST.len()
+}
+pub fn cfg(i: u8) -> (u64, u32, u64) {
+    const NAMED: [(u64, u32, u64); 5] = [(1, 0, 0), (7, 3, 0), (500, 1, 300), (1000, 2, 10_000), (60_000, 8, 60_000)];
+    let i = i as usize;
+    if i < N_NAMED_CFGS {
+        return NAMED[i];
+    }
+    let j = i - N_NAMED_CFGS;
+    let last = GRID_LAST[j % GRID_LAST.len()];
+    let n = (j / GRID_LAST.len()) % 9;
+    let rto = GRID_RTO[j / (GRID_LAST.len() * 9)];
+    (rto, n as u32, last)
+}
+pub const FAR_MS: i64 = 10_000_000;
+
+#[derive(Clone, Copy, Debug, Serialize, Deserialize, PartialEq, Eq, Hash)]
+pub struct Step {
+    pub act: Act,
+    /// model time (ms after BASE) at which the call is made
+    pub now: i64,
+}
+
+/// Reference serialisation of the request the harness hands to `send` (never the library's).
+pub fn request_wire(id: u8, seal: Seal, shape: u8) -> Vec<u8> {
+    let mut b = wire::encode_header(0, 1, tid(id), 0);
+    if shape == 1 {
+        wire::append_raw(&mut b, 0x8022, b"vcheck");
+    }
+    let key = key_text(0).as_bytes();
+    match seal {
+        Seal::None => {}
+        Seal::Sha1 => wire::append_mi(&mut b, key),
+        Seal::Sha256 => wire::append_mi256(&mut b, key, 32),
+        Seal::Both => {
+            wire::append_mi(&mut b, key);
+            wire::append_mi256(&mut b, key, 32);
+        }
+    }
+    if shape == 1 {
+        wire::append_fp(&mut b);
+    }
+    b
+}
+
+pub fn other_wire(kind: u8) -> Vec<u8> {
+    let mut b = wire::encode_header(kind, 1, tid(3) ^ 0x5555, 0);
+    wire::append_raw(&mut b, 0x8022, b"oth");
+    b
+}
+
+/// Reference-built response / incoming message bytes.
+pub fn response_wire(id: u8, class: u8, auth: Auth) -> Vec<u8> {
+    let mut b = wire::encode_header(class, 1, tid(id), 0);
+    wire::append_raw(&mut b, 0x8022, b"srv");
+    match auth {
+        Auth::None => {}
+        Auth::Sha1(k) => wire::append_mi(&mut b, key_text(k).as_bytes()),
+        Auth::Sha256(k) => wire::append_mi256(&mut b, key_text(k).as_bytes(), 32),
+        Auth::Both(k) => {
+            wire::append_mi(&mut b, key_text(k).as_bytes());
+            wire::append_mi256(&mut b, key_text(k).as_bytes(), 32);
+        }
+        Auth::Sha1Flipped(k) => {
+            wire::append_mi(&mut b, key_text(k).as_bytes());
+            let l = b.len();
+            b[l - 7] ^= 0x04;
+        }
+    }
+    b
+}
+
+pub fn incoming_wire(class: u8, id: u8) -> Vec<u8> {
+    let mut b = wire::encode_header(class, 1, tid(id), 0);
+    wire::append_raw(&mut b, 0x0024, &[0, 0, 0, 9]);
+    b
+}
+
+#[derive(Clone, Debug, PartialEq, Eq)]
+pub enum Obs {
+    /// `send` returned Ok(Transmit)
+    Sent { data: Vec<u8>, from: SocketAddr, to: SocketAddr, tcp: bool },
+    SendRefused(String),
+    PollSend { data: Vec<u8>, from: SocketAddr, to: SocketAddr, tcp: bool },
+    PollTimedOut(u128),
+    PollCancelled(u128),
+    /// nanoseconds after BASE
+    PollWait(i128),
+    Response,
+    IncomingStun,
+    Drop,
+    /// handle-less calls (cancel, configure, set credentials, tick)
+    Done,
+    NoSuchRequest,
+    /// harness could not even parse its own message with the library (C02 matter)
+    Unparsable(String),
+}
+
+#[derive(Clone, Debug, PartialEq, Eq)]
+pub struct Post {
+    pub live: [bool; N_IDS],
+    pub peer: [Option<SocketAddr>; N_IDS],
+    pub validated: [bool; N_ADDRS],
+    pub remote_creds_set: bool,
+}
+
+pub struct Real {
+    pub agent: StunAgent,
+    pub base: Instant,
+}
+
+pub fn base_instant() -> Instant {
+    use std::sync::OnceLock;
+    static BASE: OnceLock<Instant> = OnceLock::new();
+    *BASE.get_or_init(|| Instant::now() + Duration::from_secs(100_000))
+}
+
+impl Real {
+    pub fn new(tcp: bool, base: Instant) -> Real {
+        let t = if tcp { TransportType::Tcp } else { TransportType::Udp };
+        Real { agent: StunAgent::builder(t, local_addr()).build(), base }
+    }
+
+    pub fn at(&self, ms: i64) -> Instant {
+        self.base + Duration::from_millis(ms as u64)
+    }
+
+    fn rel_ns(&self, i: Instant) -> i128 {
+        if i >= self.base {
+            (i - self.base).as_nanos() as i128
+        } else {
+            -((self.base - i).as_nanos() as i128)
+        }
+    }
+
+    pub fn post(&self) -> Post {
+        let mut live = [false; N_IDS];
+        let mut peers = [None; N_IDS];
+        for i in 0..N_IDS {
+            if let Some(r) = self.agent.request_transaction(tid(i as u8).into()) {
+                live[i] = true;
+                peers[i] = Some(r.peer_address());
+            }
+        }
+        let mut validated = [false; N_ADDRS];
+        for (i, v) in validated.iter_mut().enumerate() {
+            *v = self.agent.is_validated_peer(peer(i as u8));
+        }
+        Post { live, peer: peers, validated, remote_creds_set: self.agent.remote_credentials().is_some() }
+    }
+
+    pub fn exec(&mut self, step: &Step) -> Obs {
+        let now = self.at(step.now);
+        match step.act {
+            Act::Send { id, dest, seal, shape } => {
+                let sw = Software::new("vcheck").unwrap();
+                let mut b = Message::builder(MessageType::from_class_method(MessageClass::Request, BINDING), tid(id).into());
+                if shape == 1 {
+                    b.add_attribute(&sw).unwrap();
+                }
+                let c = creds(0);
+                match seal {
+                    Seal::None => {}
+                    Seal::Sha1 => b.add_message_integrity(&c, IntegrityAlgorithm::Sha1).unwrap(),
+                    Seal::Sha256 => b.add_message_integrity(&c, IntegrityAlgorithm::Sha256).unwrap(),
+                    Seal::Both => {
+                        b.add_message_integrity(&c, IntegrityAlgorithm::Sha1).unwrap();
+                        b.add_message_integrity(&c, IntegrityAlgorithm::Sha256).unwrap();
+                    }
+                }
+                if shape == 1 {
+                    b.add_fingerprint().unwrap();
+                }
+                match self.agent.send(b, peer(dest), now) {
+                    Ok(t) => Obs::Sent { data: t.data().to_vec(), from: t.from, to: t.to, tcp: t.transport == TransportType::Tcp },
+                    Err(e) => Obs::SendRefused(format!("{e:?}")),
+                }
+            }
+            Act::SendOther { kind, dest } => {
+                let sw = Software::new("oth").unwrap();
+                let class = match kind {
+                    1 => MessageClass::Indication,
+                    2 => MessageClass::Success,
+                    _ => MessageClass::Error,
+                };
+                let mut b = Message::builder(MessageType::from_class_method(class, BINDING), (tid(3) ^ 0x5555).into());
+                b.add_attribute(&sw).unwrap();
+                match self.agent.send(b, peer(dest), now) {
+                    Ok(t) => Obs::Sent { data: t.data().to_vec(), from: t.from, to: t.to, tcp: t.transport == TransportType::Tcp },
+                    Err(e) => Obs::SendRefused(format!("{e:?}")),
+                }
+            }
+            Act::Poll { order, .. } => {
+                stun_proto::verif::set_iteration_choice(order as usize);
+                let r = self.agent.poll(now);
+                stun_proto::verif::set_iteration_choice(0);
+                match r {
+                    StunAgentPollRet::SendData(t) => Obs::PollSend { data: t.data().to_vec(), from: t.from, to: t.to, tcp: t.transport == TransportType::Tcp },
+                    StunAgentPollRet::TransactionTimedOut(t) => Obs::PollTimedOut(t.into()),
+                    StunAgentPollRet::TransactionCancelled(t) => Obs::PollCancelled(t.into()),
+                    StunAgentPollRet::WaitUntil(i) => Obs::PollWait(self.rel_ns(i)),
+                }
+            }
+            Act::Tick { .. } => Obs::Done,
+            Act::Resp { id, class, auth, from } => {
+                let bytes = response_wire(id, class, auth);
+                self.handle(&bytes, from)
+            }
+            Act::Incoming { class, id, from } => {
+                let bytes = incoming_wire(class, id);
+                self.handle(&bytes, from)
+            }
+            Act::Cancel { id } => match self.agent.mut_request_transaction(tid(id).into()) {
+                Some(mut r) => {
+                    r.cancel();
+                    Obs::Done
+                }
+                None => Obs::NoSuchRequest,
+            },
+            Act::CancelRtx { id } => match self.agent.mut_request_transaction(tid(id).into()) {
+                Some(mut r) => {
+                    r.cancel_retransmissions();
+                    Obs::Done
+                }
+                None => Obs::NoSuchRequest,
+            },
+            Act::Configure { id, cfg } => match self.agent.mut_request_transaction(tid(id).into()) {
+                Some(mut r) => {
+                    let (rto, n, last) = crate::agent::cfg(cfg);
+                    r.configure_timeout(Duration::from_millis(rto), n, Duration::from_millis(last));
+                    Obs::Done
+                }
+                None => Obs::NoSuchRequest,
+            },
+            Act::SetRemote { key } => {
+                self.agent.set_remote_credentials(creds(key));
+                Obs::Done
+            }
+        }
+    }
+
+    fn handle(&mut self, bytes: &[u8], from: u8) -> Obs {
+        match Message::from_bytes(bytes) {
+            Err(e) => Obs::Unparsable(format!("{e:?}")),
+            Ok(msg) => match self.agent.handle_stun(msg, peer(from)) {
+                HandleStunReply::StunResponse(m) => {
+                    let _ = m;
+                    Obs::Response
+                }
+                HandleStunReply::IncomingStun(m) => {
+                    let _ = m;
+                    Obs::IncomingStun
+                }
+                HandleStunReply::Drop => Obs::Drop,
+            },
+        }
+    }
+}
